@@ -3,12 +3,20 @@
 package app
 
 import (
+	"errors"
 	"strings"
 
 	"github.com/f1bonacc1/process-compose/src/types"
 )
 
-func vRunEnvCmd(cmd string) (string, error) { return "stamp", nil }
+// stub of runCmd (symgo only; natively the real shell runs the env commands): "echo X" prints X,
+// anything else fails
+func vRunEnvCmd(cmd string) (string, error) {
+	if strings.HasPrefix(cmd, "echo ") {
+		return cmd[len("echo "):], nil
+	}
+	return "", errors.New("exit status 3")
+}
 
 func vEnvOf(env []string, key string) string {
 	val := "<unset>"
@@ -38,7 +46,11 @@ func VerifC17_Project() {
 	for i := 0; i < nGlobal; i++ {
 		prj.Environment = append(prj.Environment, "G"+string(rune('0'+i))+"=g")
 	}
-	prj.EnvCommands = types.EnvCmd{"STAMP": "echo stamp"}
+	// three env_cmds, one of which fails: whatever order they are run in, the variables of the
+	// two that succeed reach every command, the failing one defines nothing
+	verifSymbolicMapOrderIn("prepareEnvCmds")
+	verifSymbolicMapOrder(true)
+	prj.EnvCommands = types.EnvCmd{"STAMP": "echo stamp", "BROKEN": "exit 3", "STAMP2": "echo stamp2"}
 	launches := 0
 	w.onStart = func(name string, attempt int) {
 		env := w.startEnv[name]
@@ -51,6 +63,8 @@ func VerifC17_Project() {
 		}
 		verifAssert("global.variable", vEnvOf(env, "G0") == "g")
 		verifAssert("env_cmds.variable", vEnvOf(env, "STAMP") == "stamp")
+		verifAssert("env_cmds.variable.next.to.a.failing.command", vEnvOf(env, "STAMP2") == "stamp2")
+		verifAssert("failing.env_cmd.defines.nothing", vEnvOf(env, "BROKEN") == "<unset>")
 		verifAssert("own.PC_PROC_NAME", vEnvOf(env, "PC_PROC_NAME") == name)
 	}
 	r := vRunner(prj, false)
